@@ -5,6 +5,7 @@ from supervisor.states import ProcessStates as PS
 CONFIGS = {
     'LIST+TIMEOUT': {'synchro_options': 'LIST,TIMEOUT', 'synchro_timeout': '15'},
     'TIMEOUT': {'synchro_options': 'TIMEOUT', 'synchro_timeout': '15'},
+    'LIST': {'synchro_options': 'LIST', 'synchro_timeout': '15'},
     'CORE': {'synchro_options': 'CORE,TIMEOUT', 'synchro_timeout': '15', 'core_identifiers': '10.0.0.2'},
 }
 
@@ -70,8 +71,7 @@ def run_schedule(src, n=2, rounds=6, closing=10, faults=1, delays=0, configs=('L
     cfg = dict(CONFIGS[cfg_name])
     cfg['auto_fence'] = str(src.pick('auto_fence', list(fences)))
     cfg['supvisors_failure_strategy'] = src.pick('failure_strategy', list(failures))
-    if cfg['supvisors_failure_strategy'] != 'CONTINUE':
-        cfg['synchro_options'] = cfg['synchro_options'].replace(',TIMEOUT', '').replace('TIMEOUT', 'LIST')
+    # (nothing is adjusted here: with TIMEOUT among the options the real SupvisorsOptions.check_options forces CONTINUE)
     programs = programs or {i: [('app', 'p1')] for i in range(n)}
     cl = Cluster(n, cfg, programs, rules=rules)
     if len(eager) > 1 or eager[0]:
